@@ -165,13 +165,10 @@ func verifC08Run(mode int) {
 			verifAssume(verifAnd(last >= pos, last < 1<<40))
 			verifAssume(verifAnd(e2 >= epoch, e2 < 1<<20)) // leader epochs never decrease along the log
 			epoch = e2
-			recs := []*Record{{Topic: "t", Partition: 0, Offset: pos, LeaderEpoch: epoch}}
-			if verifNondetBool("poll.several") {
-				recs = append(recs, &Record{Topic: "t", Partition: 0, Offset: last, LeaderEpoch: epoch})
-				verifAssume(last > pos)
-			} else {
-				verifAssume(last == pos)
-			}
+			// two records: the first at the consume position, the last at a symbolic later
+			// offset (updateUncommitted only reads the last record of a partition)
+			verifAssume(last > pos)
+			recs := []*Record{{Topic: "t", Partition: 0, Offset: pos, LeaderEpoch: epoch}, {Topic: "t", Partition: 0, Offset: last, LeaderEpoch: epoch}}
 			lastRec = recs[len(recs)-1]
 			g.updateUncommitted(Fetches{{Topics: []FetchTopic{{Topic: "t", Partitions: []FetchPartition{{Partition: 0, Records: recs}}}}}})
 			pos = last + 1
